@@ -15,7 +15,10 @@ PROP = {'lean_props': ['Comrak.Props.C07'],
                        'code_span_ticks_unused',
                        'outc_escapes_specials',
                        'table_escape_pipes',
-                       'cm_prefix_after_literal_counterexample'],
+                       'cm_prefix_after_literal_counterexample',
+                       'pct2X_wellformed',
+                       'item_exit_restores_prefix',
+                       'output_keeps_frame'],
  'strength': 'partial: proved for all inputs are the delimiter/fence/escape/table-pipe facts about the writer model (byte-equal to the real writer on '
              'every generated tree); the round-trip relation itself is false on the pinned tree (Lean witnesses + listed finding classes) and is '
              'decided per input by the search oracle on the real parser and writer',
